@@ -652,6 +652,78 @@ def check_private_names(acc):
         core.unload_source(ns)
 
 
+# ---------------------------------------------------------------------------------------------
+# (g) conditions with argument unpacking / computed format specs which the re-computation must survive
+
+SPECIAL_SRC = '''\
+import icontract
+def g(**kw):
+    return len(kw)
+class M:
+    """the minimal mapping which ** accepts"""
+    def keys(self):
+        return ['a']
+    def __getitem__(self, key):
+        return 1
+    def __repr__(self):
+        return "M()"
+@icontract.require(lambda xs: [(d := {'a': v}) for v in xs] and g(**d) > 5)
+def kwargs_bound_in_comprehension(xs):
+    return 1
+@icontract.require(lambda m: g(**m) > 5)
+def kwargs_minimal_mapping(m):
+    return 1
+@icontract.require(lambda m: len({**m}) > 5)
+def display_minimal_mapping(m):
+    return 1
+@icontract.require(lambda x, fill: f"{x:{fill}>5}" == "")
+def computed_fill(x, fill):
+    return 1
+@icontract.require(lambda x, fill: f"{x!r:{fill}^7}" == "")
+def computed_fill_conversion(x, fill):
+    return 1
+'''
+SPECIAL_CASES = [
+    ("kwargs_bound_in_comprehension", lambda ns: ns["kwargs_bound_in_comprehension"]([1, 2]), ["xs"]),
+    ("kwargs_minimal_mapping", lambda ns: ns["kwargs_minimal_mapping"](ns["M"]()), ["m", "g(**m)"]),
+    ("display_minimal_mapping", lambda ns: ns["display_minimal_mapping"](ns["M"]()), ["m"]),
+    ("computed_fill_open_brace", lambda ns: ns["computed_fill"](1, "{"), ["x", "fill"]),
+    ("computed_fill_close_brace", lambda ns: ns["computed_fill"](1, "}"), ["x", "fill"]),
+    ("computed_fill_plain", lambda ns: ns["computed_fill"](1, "*"), ["x", "fill"]),
+    ("computed_fill_conversion_brace", lambda ns: ns["computed_fill_conversion"]("a", "{"), ["x", "fill"]),
+]
+
+
+def check_specials(acc):
+    import icontract
+
+    ns = core.load_source(SPECIAL_SRC, "c07s")
+    try:
+        for name, thunk, must_show in SPECIAL_CASES:
+            def go():
+                try:
+                    return ("ret", thunk(ns))
+                except BaseException as e:  # noqa
+                    return ("exc", e)
+            out = core.fresh_ctx_run(go)
+            acc.case(("special", name), True, 1, out[0] if out[0] != "exc" else type(out[1]).__name__)
+            bad = None
+            if out[0] != "exc" or type(out[1]) is not icontract.ViolationError:
+                bad = ("violation_replaced_by_other_exception", "expected ViolationError got {!r} (cause {!r})".format(
+                    out[1], getattr(out[1], "__cause__", None)))
+            else:
+                missing = [t for t in must_show if (t + " was ") not in str(out[1])]
+                if missing:
+                    bad = ("argument_not_listed", "the message does not list {}: {!r}".format(missing, str(out[1])))
+            if bad:
+                acc.violation(core.Violation(PROP, bad[0], {"part": "specials", "case": name},
+                                             "condition with unpacking / computed format spec ({}): {}".format(name, bad[1]),
+                                             spec={"part": "specials"}, script=SPECIAL_SRC))
+        acc.sample({"part": "specials", "cases": [c[0] for c in SPECIAL_CASES]}, cap=1)
+    finally:
+        core.unload_source(ns)
+
+
 def work(args):
     import warnings
     warnings.simplefilter("ignore", SyntaxWarning)
@@ -670,6 +742,8 @@ def work(args):
             check_condition_kinds(acc)
         elif kind == "private":
             check_private_names(acc)
+        elif kind == "specials":
+            check_specials(acc)
         else:
             for case in payload:
                 check_layout(case, acc, lay_by_name)
@@ -685,6 +759,7 @@ def run(tier, t0):
     items.append(("reload", None))
     items.append(("kinds", None))
     items.append(("private", None))
+    items.append(("specials", None))
     lc = layout_cases(tier)
     items += [("layout", lc[i:i + 40]) for i in range(0, len(lc), 40)]
     tot = core.merge(core.pmap(work, core.rotate(items)))
@@ -723,6 +798,8 @@ def replay(path):
         check_condition_kinds(acc)
     elif data["part"] == "private":
         check_private_names(acc)
+    elif data["part"] == "specials":
+        check_specials(acc)
     else:
         idx = {"require": 0, "ensure": 7, "invariant": 9}[data["role"]]
         check_batch_a([(idx, ("?", data["cond"], 0, data["cond"]))], acc, expr.valuations())
